@@ -637,3 +637,57 @@ func inlineDisplayGiven(l core.Lit) bool {
 	}
 	return false
 }
+
+// finderCall is a call of a pagination finder's FindPagination, static or through an interface
+// whose dynamic types are all known (`var f finder = NewX(..)` merged over the algorithms).
+type finderCall struct {
+	call    ssa.CallInstruction
+	callees []*ssa.Function // the concrete methods that may run
+	args    []ssa.Value     // the arguments after the receiver: document, page URL
+}
+
+func finderCalls(p *core.Program, fn *ssa.Function) []finderCall {
+	var out []finderCall
+	for _, call := range core.Calls(fn, func(ci ssa.CallInstruction) bool { return true }) {
+		cc := call.Common()
+		if cc.IsInvoke() {
+			if cc.Method.Name() != "FindPagination" {
+				continue
+			}
+			fc := finderCall{call: call, args: cc.Args}
+			ok := allPhiLeaves(cc.Value, func(v ssa.Value) bool {
+				t := v.Type()
+				if mi, isMI := v.(*ssa.MakeInterface); isMI {
+					t = mi.X.Type()
+				}
+				if types.IsInterface(t) {
+					return false // dynamic type unknown
+				}
+				m := p.Prog.LookupMethod(t, cc.Method.Pkg(), "FindPagination")
+				if m == nil || !strings.Contains(core.FnPkgPath(m), "/internal/pagination") {
+					return false
+				}
+				fc.callees = append(fc.callees, m)
+				return true
+			}, map[ssa.Value]bool{})
+			if ok && len(fc.callees) > 0 {
+				out = append(out, fc)
+			}
+			continue
+		}
+		if callee := cc.StaticCallee(); callee != nil && callee.Name() == "FindPagination" && strings.Contains(core.FnPkgPath(callee), "/internal/pagination") && len(cc.Args) >= 1 {
+			out = append(out, finderCall{call: call, callees: []*ssa.Function{callee}, args: cc.Args[1:]})
+		}
+	}
+	return out
+}
+
+// isFinderResult: v is the result of one of the finder calls.
+func isFinderResult(fcs []finderCall, v ssa.Value) bool {
+	for _, fc := range fcs {
+		if cv, ok := fc.call.(ssa.Value); ok && cv == v {
+			return true
+		}
+	}
+	return false
+}
